@@ -239,7 +239,9 @@ pub fn compare(case: &Case, e: &ScEval, detail: &mut serde_json::Value) -> Optio
     if !p.has(|o| matches!(o, Op::Await { .. })) {
         let mut o = refsc::Opts::new();
         o.notify_any = true;
-        o.clocks = false;
+        // with atomics in the program the replay also carries the happens-before clocks: a load must
+        // not return a value older than a store that happens-before it through the primitives
+        o.clocks = e.has_atomics;
         o.max_states = 200_000;
         let m = refsc::Sc::new(p, o);
         let mut seen: HashSet<(Vec<(u8, u8)>, Outcome, bool)> = HashSet::new();
@@ -255,7 +257,20 @@ pub fn compare(case: &Case, e: &ScEval, detail: &mut serde_json::Value) -> Optio
             } else {
                 refsc::End::Complete
             };
-            if m.replay(&r.log, &r.results, end, e.has_atomics) == refsc::Replay::Rejected {
+            let verdict = m.replay(&r.log, &r.results, end, e.has_atomics);
+            if verdict == refsc::Replay::Stale {
+                let st = m.last_stale().unwrap();
+                let trace: Vec<String> = r.log.iter().map(|(t, i)| format!("t{}:{}", t, p.threads[*t as usize][*i as usize])).collect();
+                detail["stale_read"] = serde_json::json!({"log": trace, "results": fmt_outcome(&r.results), "at": st.pos});
+                return Some((
+                    "stale_read_despite_hb".into(),
+                    format!(
+                        "t{} read x{}={} at step {} of [{}] although the store of {} happens-before the load through the synchronisation the primitives must provide (lost happens-before edge)",
+                        st.thread, st.loc, st.read, st.pos, trace.join(" ; "), st.newer
+                    ),
+                ));
+            }
+            if verdict == refsc::Replay::Rejected {
                 let trace: Vec<String> = r.log.iter().map(|(t, i)| format!("t{}:{}", t, p.threads[*t as usize][*i as usize])).collect();
                 detail["bad_trace"] = serde_json::json!({"log": trace, "results": fmt_outcome(&r.results), "aborted": r.aborted});
                 return Some((
@@ -368,26 +383,30 @@ pub fn build(prop: &str, draws: &[u16], tier: Tier) -> Case {
             4 => ("park", gen::sync_prog(&mut s, &SyncParams { park: true, notify: true, unpark_any: true, max_threads: 3, max_ops: 6 + extra, joins: true, child_joins: true, ..sp() })),
             _ => ("mixed", gen::sync_prog(&mut s, &SyncParams { mutex: true, rwlock: true, channel: true, park: true, unpark_any: true, max_threads: 3, max_ops: 7 + extra, joins: true, ..sp() })),
         },
-        "C07" => match s.pick(6) {
+        "C07" => match s.pick(8) {
             0 => ("mutex", gen::sync_prog(&mut s, &SyncParams { mutex: true, ordered_locks: true, cells: true, max_threads: 3, max_ops: 7 + extra, late_spawn: true, ..sp() })),
             1 => ("rwlock", gen::sync_prog(&mut s, &SyncParams { rwlock: true, cells: true, max_threads: 3, max_ops: 7 + extra, ..sp() })),
             2 => ("mutex+rwlock", gen::sync_prog(&mut s, &SyncParams { mutex: true, rwlock: true, ordered_locks: true, max_threads: 3, max_ops: 7 + extra, joins: true, ..sp() })),
             3 => ("try", gen::sync_prog(&mut s, &SyncParams { mutex: true, try_lock: true, rwlock: true, try_rw: true, ordered_locks: true, max_threads: 2, max_ops: 6 + extra, ..sp() })),
             5 => ("try+atomics", gen::sync_prog(&mut s, &SyncParams { mutex: true, try_lock: true, rwlock: true, try_rw: true, atomics: true, ordered_locks: true, max_threads: 2, max_ops: 7 + extra, ..sp() })),
+            6 => ("locks+probes", gen::sync_prog(&mut s, &SyncParams { mutex: true, rwlock: true, probes: true, ordered_locks: true, max_threads: 3, max_ops: 8 + extra, joins: true, ..sp() })),
             _ => ("handover", gen::lock_handover(&mut s)),
         },
-        "C08" => match s.pick(8) {
+        "C08" => match s.pick(11) {
             7 => ("yield", gen::sync_prog(&mut s, &SyncParams { park: true, condvar: true, notify: true, yields: true, max_threads: 2, max_ops: 6 + extra, joins: true, ..sp() })),
             6 => ("unpark-any", gen::sync_prog(&mut s, &SyncParams { park: true, condvar: true, unpark_any: true, max_threads: 3, max_ops: 6 + extra, joins: true, ..sp() })),
             0 | 1 => ("condvar", gen::sync_prog(&mut s, &SyncParams { condvar: true, cells: true, max_threads: 3, max_ops: 7 + extra, ..sp() })),
             2 => ("notify", gen::sync_prog(&mut s, &SyncParams { notify: true, cells: true, max_threads: 2, max_ops: 6 + extra, joins: true, ..sp() })),
             3 => ("park", gen::sync_prog(&mut s, &SyncParams { park: true, cells: true, unpark_any: true, max_threads: 3, max_ops: 6 + extra, joins: true, ..sp() })),
             4 => ("join", gen::sync_prog(&mut s, &SyncParams { cells: true, max_threads: 3, max_ops: 5 + extra, joins: true, child_joins: true, late_spawn: true, ..sp() })),
+            8 => ("waits+probes", gen::sync_prog(&mut s, &SyncParams { condvar: true, notify: true, park: true, unpark_any: true, probes: true, max_threads: 2, max_ops: 8 + extra, joins: true, ..sp() })),
+            9 => ("notify+probes", gen::sync_prog(&mut s, &SyncParams { notify: true, probes: true, max_threads: 3, max_ops: 8 + extra, joins: true, ..sp() })),
             _ => ("wait-shapes", gen::wait_shape(&mut s)),
         },
-        "C09" => match s.pick(4) {
+        "C09" => match s.pick(5) {
             0 | 1 => ("channel", gen::sync_prog(&mut s, &SyncParams { channel: true, max_threads: 3, max_ops: 7 + extra, joins: true, ..sp() })),
             2 => ("channel+cells", gen::chan_handover(&mut s)),
+            4 => ("channel+probes", gen::sync_prog(&mut s, &SyncParams { channel: true, probes: true, max_threads: 3, max_ops: 8 + extra, joins: true, ..sp() })),
             _ => ("try_recv", gen::sync_prog(&mut s, &SyncParams { channel: true, try_recv: true, max_threads: 2, max_ops: 6 + extra, joins: true, ..sp() })),
         },
         "C10" => match s.pick(5) {
